@@ -144,7 +144,7 @@ Definition v10 i :=
   negb (v_only_bp i) &&
   match v_ref i, sinfo_rows i with
   | Some ref, Some rows =>
-      existsb (fun r : str * str => mem_str (snd r) (tl (pops i)) && negb (mem_str (fst r) ref)) rows
+      existsb (fun r : str * str => mem_str (snd r) (pops i) && negb (mem_str (fst r) ref)) rows
       || existsb (fun p => negb (existsb (fun r : str * str => str_eqb (snd r) p) rows)) (tl (pops i))
   | _, _ => false
   end.
@@ -205,11 +205,21 @@ Definition line_fracs (toks : list str) : list Q :=
   match parse_all parse_float (tl toks) with Some fr => fr | None => [] end.
 Definition MAXI : Z := 2147483647.
 
+(* genetic positions never decrease along the file (the recombination events of a child are
+   ordered by (chromosome, cM) and then read as base-pair intervals: a map whose cM goes down
+   while bp goes up yields intervals that end before they start) *)
+Fixpoint cm_nondecr (l : list Q) : bool :=
+  match l with
+  | [] => true
+  | a :: r => match r with [] => true | b :: _ => Qle_bool a b end && cm_nondecr r
+  end.
+
 Definition file_consistent (f : str * list str) : bool :=
   match map_lines (snd f) with
   | inr ms => forallb (fun m : Z * Z => fst m =? file_key f) ms
               && strict_incr (map snd ms)
               && forallb (fun m : Z * Z => (0 <=? snd m) && (snd m <? MAXI)) ms
+              && cm_nondecr (map k_cm (file_mks f))
   | inl _ => false
   end.
 
@@ -221,7 +231,10 @@ Definition strict_b (i : vin) : bool :=
      end
   && strict_incr (map chr_key (v_chroms i))
   && forallb file_consistent (matching i)
-  && match v_region i with Some (s, _) => 0 <=? s | None => true end.
+  && match v_region i with Some (s, _) => 0 <=? s | None => true end
+  (* a region is a stretch of ONE chromosome (the CLI passes chroms = [region's chromosome];
+     _prepare_coords keeps coords[0] only, _simulate then has end coordinates for one chromosome) *)
+  && match v_region i with Some _ => lenZ (v_chroms i) =? 1 | None => true end.
 
 Definition valid_b (i : vin) : bool := wf_b i && strict_b i && side_ok_b i.
 
@@ -278,6 +291,24 @@ Definition holds_front (c : vcase) : bool := holds_outcome (c_in c) (c_front c) 
 Definition model_front (c : vcase) : outcome := front false false (c_in c).
 Definition check_front (c : vcase) : bool * bool :=
   (outcome_eqb (model_front c) (c_front c), holds_front c).
+
+(* ------------------------------------------------------------ decision-only cases *)
+(* Inputs whose simulation is infeasible (sample counts / population sizes around 2^31, 2^63, 10^30):
+   only validate_params and _prepare_coords are run.  Demanded: a Valid input is accepted with
+   10 * samples <= population size; documented violations are refused as in [holds_outcome]; nothing
+   is said about completion (the relation does not run the simulation). *)
+Record dcase := mkdc { d_in : vin; d_front : outcome }.
+Definition holds_decision (i : vin) (o : outcome) : bool :=
+  if unobserved o then true else
+    if valid_b i then
+      match o, nsamples i with
+      | Accept ps, Some n => 10 * n <=? ps
+      | _, _ => false
+      end
+    else holds_outcome i o NotRun.
+Definition model_decision (c : dcase) : outcome := front false false (d_in c).
+Definition check_decision (c : dcase) : bool * bool :=
+  (outcome_eqb (model_decision c) (d_front c), holds_decision (d_in c) (d_front c)).
 
 (* ------------------------------------------------------------ CLI cases *)
 Definition args_eqb (a b : cli_args) : bool :=
